@@ -53,6 +53,9 @@ MonitorErrors(r) ==
     IN (IF r.result \in {"panic", "hang", "budget"} THEN {<<"NotTotal", r.result>>} ELSE {})
        \cup (IF n > c.max_subdevices /\ r.result = "ok" THEN {<<"SilentTruncation", n, c.max_subdevices>>} ELSE {})
        \cup (IF n = 0 /\ ~(r.result = "ok" /\ AllObs(r) = <<>>) THEN {<<"EmptyNetwork", r.result>>} ELSE {})
+       \* a network that fits, with a group filter that accepts every device, initialises
+       \cup (IF n <= c.max_subdevices /\ c.filter # "error_at" /\ r.result \notin {"ok", "panic", "hang", "budget", "err:Capacity"}
+             THEN {<<"InitFailed", r.result>>} ELSE {})
        \* a network that fits the declared capacity is not refused for lack of capacity
        \cup (IF n <= c.max_subdevices /\ r.result = "err:Capacity" /\ c.filter # "error_at"
              THEN {<<"FitsButRefused", n, c.max_subdevices>>} ELSE {})
